@@ -308,10 +308,11 @@ impl Run {
     }
     /// pick by tier
     pub fn n(&self, quick: usize, thorough: usize) -> usize {
-        if self.is_quick() {
-            quick
-        } else {
-            thorough
+        let n = if self.is_quick() { quick } else { thorough };
+        // VERIF_SCALE_PCT: only for tools/coverage.sh (an instrumented build is 10-50x slower); registered checks never set it
+        match std::env::var("VERIF_SCALE_PCT").ok().and_then(|s| s.parse::<usize>().ok()) {
+            Some(pct) => (n * pct / 100).max(1),
+            None => n,
         }
     }
     pub fn note(&mut self, key: &str, v: Value) {
